@@ -338,6 +338,51 @@ def d4_callee_names(ctx: Ctx):
               'and raises UnboundLocalError when the branch is not taken')
 
 
+def d5_with_target_bound(ctx: Ctx):
+    """The checker takes `with C as k:` for a definition of `k` (C15.D1: the body is checked under the environment extended
+    by the target), so a program reading `k` inside or after the block is accepted.  The compiled Python must then bind
+    `k` whenever the block is entered.  In `BytecodeCompiler._visit_context`, every list that can become the body of the
+    returned `try` holds, ahead of the compiled block, a store whose targets include the compiled `as` target."""
+    BYTE = 'fpy2/interpret/byte.py'
+    q = 'BytecodeCompiler._visit_context'
+    fn = ctx.fn(BYTE, q)
+    assigns: dict[str, list[ast.AST]] = {}
+    for s in ast.walk(fn):
+        if isinstance(s, ast.Assign) and len(s.targets) == 1 and isinstance(s.targets[0], ast.Name):
+            assigns.setdefault(s.targets[0].id, []).append(s.value)
+    tvars = {n for n, vs in assigns.items() if any(isinstance(v, ast.Call) and call_name(v) == 'self._visit_target' and v.args and norm(v.args[0]) == 'stmt.target' for v in vs)}
+    if not tvars:
+        raise ShapeError('_visit_context: the compiled `as` target was not found')
+
+    def binds_target(v: ast.AST) -> bool:
+        if not (isinstance(v, ast.Call) and call_name(v) == 'pyast.Assign'):
+            return False
+        t = kwarg(v, 'targets')
+        return isinstance(t, (ast.List, ast.Tuple)) and any(isinstance(e, ast.Name) and e.id in tvars for e in t.elts)
+    binders = {n for n, vs in assigns.items() if vs and all(binds_target(v) for v in vs)}
+    rets = [r for r in walk_no_nested(fn) if isinstance(r, ast.Return) and isinstance(r.value, ast.Call) and call_name(r.value) == 'pyast.Try']
+    if not rets:
+        raise ShapeError('_visit_context no longer returns a pyast.Try')
+
+    def lists_of(e: ast.AST, depth: int = 0) -> list[ast.AST]:
+        """The list expressions a `body=` operand may stand for."""
+        if isinstance(e, ast.Name) and depth < 3:
+            return [x for v in assigns.get(e.id, []) for x in lists_of(v, depth + 1)]
+        return [e]
+    n = 0
+    for r in rets:
+        body = kwarg(r.value, 'body')
+        for lst in lists_of(body) if body is not None else []:
+            n += 1
+            head = lst.left if isinstance(lst, ast.BinOp) and isinstance(lst.op, ast.Add) else lst
+            names = [e.id for e in getattr(head, 'elts', []) if isinstance(e, ast.Name)]
+            inline = any(binds_target(e) for e in getattr(head, 'elts', []))
+            ctx.check(inline or any(nm in binders for nm in names), BYTE, lst, q, f'the entered block `{norm(lst)[:70]}` stores the `as` target before its statements run',
+                      f'none of {names} binds it: `with FP32 as c: ...` then `with c: ...` is accepted by the checker and fails with NameError: name \'c\' is not defined')
+    if n == 0:
+        raise ShapeError('_visit_context: the body of the returned try was not read')
+
+
 def d3_terminated_arms(ctx: Ctx):
     """SyntaxCheck lets the environment of a terminated arm drop out of the merge after an if/else (T1: merge with a
     terminated environment is the other one; D1: `with` hands on its body's environment, a return terminates).  The
@@ -396,6 +441,7 @@ RULES = [
     Rule('C15.T1', '_Env.merge / extend tables', t1_env_merge, 6, 'T'),
     Rule('C15.T2', 'two spellings are two identifiers: the base / count split of a name is undone by printing it', identifier_spelling_rule, 3, 'T'),
     Rule('C15.D2', 'Reachability transfer functions and error checks', d2_reachability, 16, 'D,T'),
+    Rule('C15.D5', 'what the checker takes as bound by `with .. as k` the compiled code binds on every way into the block', d5_with_target_bound, 1, 'D'),
     Rule('C15.D4', 'a callee name the function binds is checked like a variable; captured names never include the function\'s own locals', d4_callee_names, 7, 'D,P'),
     Rule('C15.D3', 'an arm the front end takes as terminated (return, if/else of those, `with` around one) is dropped from the merge of definitions', d3_terminated_arms, 1, 'D'),
     Rule('C15.P1', '@fpy runs SyntaxCheck and Reachability (both checks) on every path before Function(ast)', p1_decorator_pipeline, 3, 'P'),
@@ -404,6 +450,8 @@ RULES = [
 from ..selftest import Mutant  # noqa: E402
 
 MUTANTS = [
+    Mutant('with-as-target-unbound-on-a-fast-path', 'fpy2/interpret/byte.py', "        try_body = [stash_stmt, real_stmt, set_stmt] + body\n", "        if isinstance(stmt.ctx, Var):\n            try_body = [stash_stmt, real_stmt] + body\n        else:\n            try_body = [stash_stmt, real_stmt, set_stmt] + body\n", 'C15.D5',
+           'seeded change C15f: `with FP32 as c` no longer binds c'),
     Mutant('locally-bound-callee-unchecked', SYNTAX, "                self._mark_use(e.func.name, ctx.env, ignore_missing=self.ignore_unknown and not local)", "                self._mark_use(e.func.name, ctx.env, ignore_missing=self.ignore_unknown)", 'C15.D4',
            'finding F83 before its repair'),
     Mutant('attribute-names-captured', DECORATOR, "    free_vars -= bound_names(ast)\n", "", 'C15.D4', 'finding F84 before its repair'),
